@@ -42,6 +42,14 @@ Theorem C08_format_strip_roundtrip : forall fo e (L : list dspec),
              strip_bonding_descriptors fo (e ++ fb)
              = Ok (e, fold_left (fun d x => nd_append 0 (d_stored x) d) L [], [], []).
 Proof. exact format_strip_roundtrip. Qed.
+(** the same round trip behind a COARSE node [#name] (names without ']' and ';', no annotation): clean text
+    "[#name]", the list L on node 0, the node's parsed (empty) annotation *)
+Theorem C08_format_strip_roundtrip_coarse : forall fo nm (L : list dspec) a0,
+  body_ok ("#"%char :: nm) = true -> fragment_node_parser fo [] = Ok a0 -> forallb d_ok L = true ->
+  exists fb, format_bonding (map d_stored L) = Ok fb /\
+             strip_bonding_descriptors fo (coarse_text nm ++ fb)
+             = Ok (coarse_text nm, fold_left (fun d x => nd_append 0 (d_stored x) d) L [], [], nd_update 0 a0 []).
+Proof. exact format_strip_roundtrip_coarse. Qed.
 Theorem C08_descriptors_on_atom0 : forall L : list dspec, L <> [] ->
   fold_left (fun d x => nd_append 0 (d_stored x) d) L [] = [(0%nat, map d_stored L)].
 Proof. exact descs_on_atom0. Qed.
@@ -59,4 +67,5 @@ Print Assumptions C08_format_bonding_spec.
 Print Assumptions C08_format_bonding_order1.
 Print Assumptions C08_format_bonding_single.
 Print Assumptions C08_format_strip_roundtrip.
+Print Assumptions C08_format_strip_roundtrip_coarse.
 Print Assumptions C08_descriptors_on_atom0.
